@@ -27,6 +27,18 @@ def path_equalities(path):
     return out
 
 
+def bit_lemmas(path, widths):
+    """true statements about the exact skolem decompositions of a path (t = sum 2^i b_i + 2^W hi): if 0 <= t < 2^k then the
+    digits above k and the high part are zero.  Implied by the axioms; stated explicitly because the solvers do not find
+    uniqueness of binary expansions across different widths by themselves at 16 bits"""
+    out = []
+    for (tid, W), (bs, hi, t) in path.bitcache.items():
+        for k in widths:
+            if k < W:
+                out.append(z3.Implies(z3.And(t >= 0, t < (1 << k)), z3.And([hi == 0] + [b == 0 for b in bs[k:]])))
+    return out
+
+
 def normaliser(env, trace):
     nz = trace.extra.get("nz")
     if nz is None:
